@@ -44,7 +44,8 @@ def run(ctx):
         parts.append(("sim", cfg(6, 0, ALL, '{"*"}'), "num=100", 7))
     else:
         parts.append(("plain4", cfg(4, 0, ALL, '{"*"}'), None, None))          # 137 560 chains, exhaustive
-        parts.append(("forms3", cfg(3, 2, REP, SUB), None, None))
+        parts.append(("forms3", cfg(3, 1, REP, SUB), None, None))                 # one special operand, k<=3
+        parts.append(("forms2x2", cfg(2, 2, REP, '{"*", "+"}'), None, None))      # two special operands, k<=2
         parts.append(("sim", cfg(8, 0, ALL, '{"*"}'), "num=1200", 9))
         parts.append(("simforms", cfg(5, 3, ALL, SUB), "num=150", 6))
     for name, text, sim, depth in parts:
